@@ -72,6 +72,11 @@ def under_yields(v, tier, seed):
     """For C16: the merge scenarios replayed with seeded yields at every channel send."""
     scen = os.path.join(vlib.sub("scn"), "merge-yield.ndjson")
     generate("small", SMALL, scen, commit_every=7)
+    # three branches: the order in which the three differs finish is part of the schedule
+    scen3 = os.path.join(vlib.sub("scn"), "merge3-yield.ndjson")
+    generate("tripleq", TRIPLEQ, scen3, commit_every=0, keep=lambda i: i % (4 if tier == "quick" else 1) == seed % (4 if tier == "quick" else 1))
+    with open(scen, "a") as f, open(scen3) as g:
+        f.write(g.read())
     cov = {}
     for procs, ypm in (((2, 400),) if tier == "quick" else ((2, 400), (16, 150), (1, 300))):
         o = vlib.replay("merge", scen, env={"VERIF_YIELD": str(ypm), "VERIF_SEED": str(seed), "GOMAXPROCS": str(procs)}, timeout=120)
